@@ -174,7 +174,7 @@ pub fn rand_select(r: &mut R, tabs: &[Tab], allow_join: bool) -> Select {
         let alias = if nt == 1 { t.def.name.clone() } else { format!("q{}", k + 1) };
         scope_items.push((t, alias.clone(), base));
         let (jk, on) = if k == 0 { ("first", lit_true()) } else {
-            let jk = *pick(r, &["inner", "inner", "left", "left", "cross"]);
+            let jk = *pick(r, &["inner", "inner", "left", "left", "cross", "right", "full"]);
             let sc = Scope(scope_items.clone());
             let on = if jk == "cross" { lit_true() } else {
                 // equi-join between the new table and an earlier one, sometimes with an extra conjunct
